@@ -1,7 +1,8 @@
 // probe: runs the real library on a project given as arguments.
-//   probe build <rootfile>            build from disk, print error/JSON
-//   probe str '<content>'             build from an in-memory root file named root.jst
-//   probe scan '<content>'            run only the scanner, print lexemes
+//
+//	probe build <rootfile>            build from disk, print error/JSON
+//	probe str '<content>'             build from an in-memory root file named root.jst
+//	probe scan '<content>'            run only the scanner, print lexemes
 package main
 
 import (
@@ -12,6 +13,7 @@ import (
 
 	"github.com/jsightapi/jsight-api-core/core"
 	"github.com/jsightapi/jsight-api-core/directive"
+	"github.com/jsightapi/jsight-api-core/jerr"
 	"github.com/jsightapi/jsight-api-core/kit"
 	"github.com/jsightapi/jsight-api-core/scanner"
 )
@@ -92,6 +94,9 @@ func main() {
 func report(j kit.JApi, je interface{ Error() string }) {
 	if v, ok := je.(interface{ Error() string }); ok && fmt.Sprint(je) != "<nil>" {
 		fmt.Printf("ERROR: %s\n", v.Error())
+		if l, ok := je.(*jerr.JApiError); ok && l != nil {
+			fmt.Printf("  line %d column %d index %d\n", l.Line, l.Column, l.Index)
+		}
 		os.Exit(1)
 	}
 	b, err := j.ToJson()
